@@ -1,3 +1,4 @@
+mod cfg_engine;
 mod comp_sketch;
 mod engine;
 mod exec;
@@ -14,6 +15,9 @@ use std::path::PathBuf;
 pub fn extra_engines(prop: &str, thorough: bool) -> Vec<sup::EnginePlan> {
     let mut v = Vec::new();
     let t = thorough;
+    if prop == "C17" {
+        v.push(sup::EnginePlan { engine: "cfg", workers: 16, cases_per_worker: if t { 6000 } else { 700 }, timeout_s: if t { 1500 } else { 400 } });
+    }
     if prop == "C14" || prop == "C08" {
         v.push(sup::EnginePlan { engine: "sketch", workers: 16, cases_per_worker: if t { 1500 } else { 150 }, timeout_s: if t { 1500 } else { 400 } });
     }
@@ -30,6 +34,7 @@ pub fn rule_for(prop: &str, engine: &str) -> String {
             }
         }
         "sketch" => comp_sketch::RULE.to_string(),
+        "cfg" => cfg_engine::RULE.to_string(),
         _ => String::new(),
     }
 }
@@ -76,6 +81,7 @@ fn main() {
             let res = match eng.as_str() {
                 "seq" => engine::seq_worker(&wa),
                 "sketch" => comp_sketch::sketch_worker(&wa),
+                "cfg" => cfg_engine::cfg_worker(&wa),
                 other => panic!("unknown engine {other}"),
             };
             engine::write_result(&dir, idx, &res);
@@ -134,6 +140,7 @@ fn replay_found(found: &engine::Found, path: &str, quiet: bool) -> i32 {
             }
         }
         "sketch" => report(comp_sketch::replay(found), found, path),
+        "cfg" => report(cfg_engine::replay(found), found, path),
         other => {
             eprintln!("unknown engine {other}");
             2
